@@ -20,7 +20,9 @@ EXPLANATION = (
     "type ranges, allocation bound; Fourier-Motzkin refutation inside the checker), or by a named lemma with a machine-checked applicability pattern. Undischarged obligations are violations unless listed as known "
     "findings with a concrete failing input.")
 TRUSTED = ["absint entailment engine", "lemma table (lib/mx/rules/lemmas.py)", "externals: which std functions can panic"]
-ASSUMPTIONS = ["allocation failure, capacity overflow and stack exhaustion excluded", "no slice/Vec/String exceeds isize::MAX bytes"]
+ASSUMPTIONS = ["allocation failure, capacity overflow and stack exhaustion excluded", "no slice/Vec/String exceeds isize::MAX bytes (language guarantee); usize is 64 bits",
+               "A1: fewer than 2^32 - 1 samples per track and fragments per muxer (counters and 1-based sample numbers; lemma L-COUNT)",
+               "A2: the sizes of simultaneously live buffers sum to less than 2^62 bytes (lemma L-ALLOC: sums of payload lengths)"]
 
 ENTRY_MODULES = ("api::", "fragmented::", "codec::", "validation::", "<api::", "<fragmented::", "<codec::", "<validation::", "muxer::mp4::AdtsValidationError", "<muxer::mp4::", "muxer::mp4::_::")
 
@@ -705,4 +707,8 @@ def check(prog, run):
         else:
             run.bad("R2", key, "no termination argument found for this loop (%s)" % why, mir.loc_of(b["blocks"][header]["term"]))
     run.extra["loops"] = lcount
+    used = dict(lem.used)
+    for k_, v_ in A.USED_LEMMAS.items():
+        used[k_] = used.get(k_, 0) + v_
+    run.extra["lemmas_used"] = used
     run.floor("R2", sum(lcount.values()), 40, "loops")
